@@ -14,9 +14,17 @@ import (
 type Cfg struct {
 	Kind  Kind `json:"kind"`
 	Slice bool `json:"slice_of_two_parents"`
+	// Focus: a second, narrower search of the single-parent configuration over
+	// the calls that pass the persistent values again plus the calls that
+	// unlink (so that link -> unlink -> link-again with the same Go value is
+	// reached within the quick bound for every relation kind).
+	Focus bool `json:"kept_value_focus,omitempty"`
 }
 
 func (c Cfg) String() string {
+	if c.Focus {
+		return kindName[c.Kind] + "/single-kept-values"
+	}
 	if c.Slice {
 		return kindName[c.Kind] + "/slice"
 	}
@@ -72,7 +80,12 @@ func initialParents(c Cfg) []Parent {
 	return []Parent{a}
 }
 
-func mkTarget(sym int) *Target {
+// mkTarget: a fresh value for the plain symbols, the persistent value of this
+// history for the kept ones.
+func (s *session) mkTarget(sym int) *Target {
+	if sym >= keptNew {
+		return s.pool[sym]
+	}
 	if sym == 0 {
 		return &Target{Name: "n"}
 	}
@@ -182,6 +195,8 @@ type Obs struct {
 	Impure   string // non-empty if the Count/Find observers changed the state
 	OpCount  int64  // result of the call itself when it is Count
 	OpFind   []uint // result of the call itself when it is Find
+	// key and name of the persistent values after the call
+	KeptAfter map[int]KeptVal
 }
 
 func (o *Obs) canon() string {
@@ -192,12 +207,30 @@ type session struct {
 	w       *worker
 	c       Cfg
 	parents []Parent
+	pool    map[int]*Target // persistent argument values (single-parent configurations)
+}
+
+// memory: the normalised in-memory part of the state: the parent value(s) and
+// the persistent argument values (a later call can read both).
+func (s *session) memory() []string {
+	var mem []string
+	for i := range s.parents {
+		mem = append(mem, memString(&s.parents[i]))
+	}
+	if s.pool != nil {
+		mem = append(mem, fmt.Sprintf("kept values: t3=%s new=%s", fmtTarget(s.pool[keptT3]), fmtTarget(s.pool[keptNew])))
+	}
+	return mem
 }
 
 func (w *worker) begin(c Cfg) *session {
 	seed(w.env)
 	w.env.Rec.Reset()
-	return &session{w: w, c: c, parents: initialParents(c)}
+	s := &session{w: w, c: c, parents: initialParents(c)}
+	if !c.Slice {
+		s.pool = map[int]*Target{keptT3: {ID: 3, Name: "t3"}, keptNew: {Name: "n"}}
+	}
+	return s
 }
 
 func (s *session) assoc(unscoped bool) *gorm.Association {
@@ -227,6 +260,7 @@ func idsOf(ts []Target) []uint {
 func (s *session) apply(op Op, observe bool) (o *Obs) {
 	o = &Obs{}
 	var held [][]*Target
+	var preKeys [][]uint
 	func() {
 		defer func() {
 			if r := recover(); r != nil {
@@ -247,7 +281,7 @@ func (s *session) apply(op Op, observe bool) (o *Obs) {
 			for _, arg := range op.Args {
 				var ts []*Target
 				for _, sym := range arg {
-					ts = append(ts, mkTarget(sym))
+					ts = append(ts, s.mkTarget(sym))
 				}
 				held = append(held, ts)
 				if !s.c.Slice {
@@ -267,11 +301,17 @@ func (s *session) apply(op Op, observe bool) (o *Obs) {
 				named = op.Args[0]
 			}
 			for _, sym := range named {
-				t := mkTarget(sym)
+				t := s.mkTarget(sym)
 				ts = append(ts, t)
 				values = append(values, t)
 			}
 			held = append(held, ts)
+			// Delete names records by the keys the values carry BEFORE the call
+			var r []uint
+			for _, t := range ts {
+				r = append(r, t.ID)
+			}
+			preKeys = [][]uint{r}
 		}
 		var err error
 		switch op.Code {
@@ -297,12 +337,24 @@ func (s *session) apply(op Op, observe bool) (o *Obs) {
 			o.Err = err.Error()
 		}
 	}()
-	for _, ts := range held {
-		var r []uint
-		for _, t := range ts {
-			r = append(r, t.ID)
+	if op.Code != "Delete" {
+		// Append/Replace: the keys the argument values carry AFTER the call (new
+		// records receive theirs in the call)
+		for _, ts := range held {
+			var r []uint
+			for _, t := range ts {
+				r = append(r, t.ID)
+			}
+			o.Res = append(o.Res, r)
 		}
-		o.Res = append(o.Res, r)
+	} else {
+		o.Res = preKeys
+	}
+	if s.pool != nil {
+		o.KeptAfter = map[int]KeptVal{}
+		for sym, t := range s.pool {
+			o.KeptAfter[sym] = KeptVal{t.ID, t.Name}
+		}
 	}
 	if !observe {
 		return
@@ -314,8 +366,8 @@ func (s *session) apply(op Op, observe bool) (o *Obs) {
 func (s *session) observe(o *Obs) {
 	o.Leaks = s.w.env.Leaks()
 	o.Snap = takeSnap(s.w.env)
+	o.Mem = s.memory()
 	for i := range s.parents {
-		o.Mem = append(o.Mem, memString(&s.parents[i]))
 		o.MemIDs = append(o.MemIDs, memIDs(s.c.Kind, &s.parents[i]))
 	}
 	before := o.canon()
@@ -344,11 +396,7 @@ func (s *session) observe(o *Obs) {
 		o.FindIDs = idsOf(out)
 	}()
 	after := takeSnap(s.w.env).String()
-	var mem []string
-	for i := range s.parents {
-		mem = append(mem, memString(&s.parents[i]))
-	}
-	if a := after + strings.Join(mem, "\n"); a != before {
+	if a := after + strings.Join(s.memory(), "\n"); a != before {
 		o.Impure = "state after the Count/Find observers:\n" + a
 	}
 	if l := s.w.env.Leaks(); l != "" && o.Leaks == "" {
